@@ -14,7 +14,7 @@ def run(ctx):
     quick = ctx.tier == "quick"
     fc.run_property(ctx, "C01", profiles=["mix", "mix", "waiters"], corpus_props=["C01"],
                     nscripts=400 if quick else 2500,
-                    configs=[(1, 1), (2, 1)] if quick else [(1, 1), (2, 1), (1, 2), (3, 1)],
+                    configs=[(1, 1), (2, 1)] if quick else [(1, 1), (2, 1), (1, 2), (3, 1), (2, 2, 25)],
                     trivial_rule=nontrivial)
     ctx.cov["rule"] = ("scripts of 8-45 FEB calls by 2-8 tasks and 0-2 non-qthread pthreads on 1-3 words, generated against the model's "
                        "current state (would-block / state-flipping / neutral operations, every dest/src aliasing mode, _const and _nb "
